@@ -52,6 +52,7 @@ class Family:
     teardown: Optional[Callable[[], None]] = None
     stateful: Any = None  # optional: callable(shardctx) running its own hypothesis driver
     min_nontrivial_frac: float = 0.0
+    fuzz: tuple = ()  # modules to instrument for the coverage-guided extra (thorough tier); empty = no fuzz shard
     quick_budget_s: float = 150.0
     thorough_budget_s: float = 1500.0
 
